@@ -40,4 +40,19 @@ func NewResponse(stdr *http.Response) (r *Response, err error)
   ensures err == nil && r != nil && fresh(r) && r.Response != nil && r.stream == nil && len(r.payload) == 0
   ensures wraps-the-given-response: stdr != nil ==> r.Response == stdr
   ensures default-is-200: stdr == nil ==> fresh(r.Response) && r.Response.StatusCode == 200 && r.Response.Header != nil
+
+func NewRequest(stdr *http.Request) (r *Request, err error)
+  trusted
+  flag allocates
+  pure
+  ensures err == nil && r != nil && fresh(r) && r.stream == nil && len(r.payload) == 0
+  ensures stdr != nil ==> r.Request == stdr
+
+func (r *Request) MetaSize() (n int)
+  trusted
+  pure
+
+func (r *Response) MetaSize() (n int)
+  trusted
+  pure
 @*/
